@@ -4,7 +4,7 @@
 // signing algorithm, storage capabilities, flow variant).
 // run executes it once without faults; the journal of the verification storage yields the N storage calls of the
 // request under test. Then the scenario is rebuilt from scratch and re-run once for every (call position j in 1..N) x
-// (fault kind in error | deadline | partial-fill-then-error | *oidc.Error server_error | plain error wrapping an *oidc.Error |
+// (fault kind in ctx-canceled-real | ctx-deadline-real (the request's own context ends inside the call, see realEnd) | error | deadline | partial-fill-then-error | *oidc.Error server_error | plain error wrapping an *oidc.Error |
 // every library sentinel / specially treated error value a storage may return or pass on: op.ErrInvalidRefreshToken plain and
 // wrapped, op.ErrDuplicateUserCode, oidc.ErrKeyNone, context.Canceled, wrapped context.DeadlineExceeded, *oidc.Error
 // access_denied / slow_down / authorization_pending) and once per distinct storage
@@ -743,6 +743,17 @@ func kindsAt(m string) []string {
 
 func isSentinel(kind string) bool { return has(libSentinelKinds, kind) }
 
+// Real context ends: besides the injected VALUES context.Canceled / context.DeadlineExceeded (a storage with a context of its
+// own: driver timeout, pool shutdown - the request's context stays alive), a storage call also fails because the REQUEST'S
+// context ended while the call was under way (client gone, timeout middleware in front of the provider): the call returns
+// ctx.Err() and r.Context() is done for whatever the handler does next. The statement makes no exception for that: a storage
+// call failed, the request is answered with an error - a handler that writes nothing is answered 200 OK by net/http.
+var (
+	realModes    = []string{"cancel", "deadline"}
+	realKindName = map[string]string{"cancel": "ctx-canceled-real", "deadline": "ctx-deadline-real"}
+	realInjected = map[string]string{"cancel": "canceled", "deadline": "deadline"} // the vkit fault kind whose value equals ctx.Err()
+)
+
 // backed: the success answer r is a genuine one, i.e. what it hands out is what the storage of this execution holds.
 // Only used to delimit the tolerated region "documented try-again sentinel at ONE position, the library tried again, the
 // storage accepted"; flows without such a sentinel report false (then the statement is asserted as it stands).
@@ -854,9 +865,13 @@ func run(c Case) (res *vkit.Result) {
 	reqNo := base.resp.Req
 
 	labelled := map[string]bool{}
-	judge := func(f vkit.Fault, where string) {
+	judge := func(f vkit.Fault, where string, real *realEnd) {
 		wide := f.Call == 0
-		out := execute(c, []vkit.Fault{f})
+		kind := f.Kind
+		if real != nil {
+			kind = realKindName[real.Mode]
+		}
+		out := executeReal(c, []vkit.Fault{f}, real)
 		if out.setupNote != "" || out.resp.Req != reqNo {
 			count("rerun_diverged", 1)
 			res.Label("rerun-diverged")
@@ -879,6 +894,16 @@ func run(c Case) (res *vkit.Result) {
 			res.Label("fault-not-fired")
 			return
 		}
+		if real != nil {
+			// (the context was ended while this very call was parked on entry: the gate counts the calls of the method made
+			// since the set-up, the fault plan counts the calls of the request - both name the same call)
+			count("real_ctx_runs", 1)
+			count("real_ctx_runs_at_"+method, 1)
+			if !labelled["real:"+real.Mode+":"+method] {
+				labelled["real:"+real.Mode+":"+method] = true
+				res.Label("real-ctx:"+real.Mode, "real-ctx-at:"+method)
+			}
+		}
 		if f.Kind == "partial" && method == "GetRefreshTokenInfo" && c.TokenKind == "access" {
 			// The verification storage looks the token up before it injects a partial-fill failure; for an access token the
 			// call therefore returns its regular answer op.ErrInvalidRefreshToken ("not a refresh token, try the other kind"),
@@ -895,13 +920,13 @@ func run(c Case) (res *vkit.Result) {
 		}
 		count("faulted_"+method, 1)
 		cell := c.Flow + ":" + c.Router + ":" + method
-		desc := fmt.Sprintf("%s/%s: storage call %d (%s) failing with %q [%s]", c.Flow, c.Router, pos, method, f.Kind, where)
+		desc := fmt.Sprintf("%s/%s: storage call %d (%s) failing with %q [%s]", c.Flow, c.Router, pos, method, kind, where)
 		if r.Panic != nil {
 			res.Fail("C10:panic@"+r.PanicFrame(), "%s: handler panicked: %v", desc, r.Panic)
 			info.Outcomes["panic"]++
 			return
 		}
-		if isSentinel(f.Kind) {
+		if isSentinel(f.Kind) && real == nil {
 			count("libsentinel_runs_at_"+method, 1)
 			if !labelled["libsentinel:"+method] {
 				labelled["libsentinel:"+method] = true
@@ -934,6 +959,10 @@ func run(c Case) (res *vkit.Result) {
 			}
 		}
 		ok, how := errorAnswer(c, r, validated)
+		if !ok && r.JournalAtWrite < 0 && r.WriteHeaderCalls == 0 && len(r.Body) == 0 {
+			// the handler returned without writing a status or a byte: net/http turns that into 200 OK with an empty body
+			how = "nothing-written-" + how
+		}
 		if info.Outcomes[how] == 0 {
 			res.Label("answer:" + how)
 		}
@@ -951,7 +980,7 @@ func run(c Case) (res *vkit.Result) {
 
 	for j := 1; j <= n; j++ {
 		for _, k := range kindsAt(base.calls[j-1].Method) {
-			judge(vkit.Fault{Req: reqNo, Call: j, Kind: k}, "single")
+			judge(vkit.Fault{Req: reqNo, Call: j, Kind: k}, "single", nil)
 			info.Triples++
 			count("triples", 1)
 			count("triples_kind_"+k, 1)
@@ -960,13 +989,41 @@ func run(c Case) (res *vkit.Result) {
 				count("triples_nontrivial", 1)
 			}
 		}
+		// the same position with the request's own context really ending inside the call
+		nth := 0
+		for _, e := range base.calls[:j] {
+			if e.Method == base.calls[j-1].Method {
+				nth++
+			}
+		}
+		for _, mode := range realModes {
+			judge(vkit.Fault{Req: reqNo, Call: j, Kind: realInjected[mode]}, "single, request context ended inside the call", &realEnd{Method: base.calls[j-1].Method, Nth: nth, Mode: mode})
+			info.Triples++
+			count("triples", 1)
+			count("triples_kind_"+realKindName[mode], 1)
+			count("triples_flow_"+c.Flow, 1)
+			if j >= 2 {
+				count("triples_nontrivial", 1)
+			}
+		}
 	}
 	for _, m := range methods {
 		for _, k := range append(append([]string{}, methodWideKinds...), sentinelKinds[m]...) {
-			judge(vkit.Fault{Req: reqNo, Method: m, Kind: k}, "every call of "+m)
+			judge(vkit.Fault{Req: reqNo, Method: m, Kind: k}, "every call of "+m, nil)
 			info.Methods++
 			count("method_wide_runs", 1)
 			count("method_wide_kind_"+k, 1)
+		}
+		for _, mode := range realModes {
+			// the context ends inside the first call of m; that call and every later one of m fail with the context's error
+			// (thorough tier only: it differs from the single-position run at the first call of m only where m is called again)
+			if vkit.Tier() != "thorough" {
+				break
+			}
+			judge(vkit.Fault{Req: reqNo, Method: m, Kind: realInjected[mode]}, "every call of "+m+", request context ended inside the first", &realEnd{Method: m, Nth: 1, Mode: mode})
+			info.Methods++
+			count("method_wide_runs", 1)
+			count("method_wide_kind_"+realKindName[mode], 1)
 		}
 	}
 	res.NonTrivial = n >= 2
@@ -980,7 +1037,8 @@ var prop = vkit.Prop[Case]{
 		"id_token_hint, request object, subject/actor/requested token type, revoked token kind/hint, logout parameters); run = fault-free baseline, then the scenario rebuilt and re-run for EVERY storage-call position j of the request under test x " +
 		"{error, context.DeadlineExceeded, partial-fill-then-error, *oidc.Error server_error, plain error wrapping an *oidc.Error, + every library sentinel a storage may return or pass on from any call: " +
 		"op.ErrInvalidRefreshToken plain and %w-wrapped (not at GetRefreshTokenInfo, whose regular answer it is), op.ErrDuplicateUserCode, oidc.ErrKeyNone, context.Canceled, %w-wrapped context.DeadlineExceeded, *oidc.Error access_denied / slow_down / authorization_pending} " +
-		"and for every distinct method x {error, deadline, oidc, oidc-wrapped, + its documented sentinels} with ALL its calls failing, retries included (extra keys: triples, triples_kind_*, triples_nontrivial = j>=2 or partial, positions, method_wide_runs, method_wide_kind_*, sentinel_runs_*, libsentinel_runs_at_<method>; labels libsentinel-at:<method>); " +
+		"+ the REQUEST'S OWN CONTEXT really ending inside the failing call: the request under test is served with a context of its own, the call parks on entry, the harness cancels the context (ctx-canceled-real) or lets its deadline pass (ctx-deadline-real), the call returns ctx.Err() and r.Context() is done for whatever the handler does next (extra keys real_ctx_runs, real_ctx_runs_at_<method>, triples_kind_ctx-*-real; labels real-ctx:<cancel|deadline>, real-ctx-at:<method>; a handler that writes nothing = 200 with an empty body = no error answer, labelled answer:nothing-written-status-200) " +
+		"and for every distinct method x {error, deadline, oidc, oidc-wrapped, + its documented sentinels; thorough: + both real context ends inside its first call} with ALL its calls failing, retries included (extra keys: triples, triples_kind_*, triples_nontrivial = j>=2 or partial, positions, method_wide_runs, method_wide_kind_*, sentinel_runs_*, libsentinel_runs_at_<method>; labels libsentinel-at:<method>); " +
 		"forbidden material includes device_code / user_code; a single-position fault with the try-again sentinel documented for that method (op.ErrDuplicateUserCode at StoreDeviceAuthorization) that the library answers by calling the same method again is grey only if the success is backed by the storage (grey_sentinel_retried_genuine_success); " +
 		"non-trivial scenario = request under test makes >= 2 storage calls; distinct = normalised scenario; scenarios whose fault-free request is refused with a clean error answer are enumerated all the same (baseline_refused; labels baseline:<success|refused>:<flow>/<router>, present:<auth method>/<presentation>:<success|refused>, app:<type>, store:empty-secret-ok); excluded and counted: scenarios whose fault-free baseline is neither a success nor a clean refusal (baseline_not_success)",
 	Gen: genCase,
